@@ -10,6 +10,7 @@ CONSTANTS
   EntModes = {"first"}
   EpChoices = {0}
   CfgModes = {"full"}
+  AddrModes = {TRUE}
   TgtChoices = {0}
   ScopeKinds = {"allblocks", "allfuncs", "single"}
   Positions = {"ENTRY", "EXIT"}
